@@ -32,6 +32,85 @@ fn leak_scan(ctx: &Ctx, what: &str, sk: &[u8; 32], bytes: &[u8], detail: &dyn Fn
     true
 }
 
+
+/// Passwords with white-space and line-terminator edges, in the role of the NEW password and then of the CURRENT one:
+/// the key must end up locked under exactly the bytes given (the reference opens it with them and with nothing that
+/// merely looks alike), and a change away from such a password must work with exactly those bytes again.
+fn edge_passwords(ctx: &Ctx) {
+    let family: Vec<String> = vec![
+        "line\n".into(), "crlf\r\n".into(), "\n".into(), "\r".into(), "\r\n".into(), "two\n\n".into(), "\nleading-newline".into(), "in\nside".into(),
+        "tab\t".into(), "\ttab".into(), "space ".into(), " space".into(), "  ".into(), "nbsp\u{a0}".into(), "\u{2028}line-sep".into(), "vt\u{b}".into(), "ff\u{c}".into(), "bell\u{7}".into(),
+        "esc\u{1b}[0m".into(), "del\u{7f}".into(), "bom\u{feff}".into(), "caf\u{e9}".into(), "cafe\u{301}".into(),
+    ];
+    let n = ctx.tier.pick(family.len(), family.len() * 3);
+    par_for(n, crate::util::ncpu(), |i| {
+        let w = &family[i % family.len()];
+        let mut rng = Rng::fork(ctx.seed, &format!("C16-edge-{}", i));
+        let wd = WorkDir::new("c16e");
+        let id = Ident::new("edge", "start-pw", &mut rng);
+        let o = Cmd::new(&wd.path, &["key", "change-pass", &id.locked, "--env-pass"]).pass("start-pw").env("KESTREL_NEW_PASSWORD", w).run();
+        ctx.eval();
+        let detail = |extra: serde_json::Value| json!({"new_password": w, "new_password_hex": hex(w.as_bytes()), "exit": o.exit.describe(), "stdout": o.stdout_s(), "stderr": o.stderr_s(), "more": extra});
+        let newl = match (&o.exit, o.stdout_s().lines().find_map(|l| l.strip_prefix("PrivateKey = ").map(|x| x.trim().to_string()))) {
+            (Exit::Timeout, _) => {
+                ctx.inconclusive("C16: timeout");
+                return;
+            }
+            (Exit::Code(1), _) if o.has_error_line() => {
+                ctx.seen("edge password refused as a new password");
+                return;
+            }
+            (Exit::Code(0), Some(l)) => l,
+            _ => {
+                ctx.violation("C16:change-pass-failed:edge-password", detail(json!(null)));
+                return;
+            }
+        };
+        if refspec::unlock_sk(&newl, w.as_bytes()) != Ok(id.sk) {
+            ctx.violation("C16:changed-key-does-not-unlock-with-the-new-password:edge-password", detail(json!({"note": "the reference cannot open the new string with exactly the bytes given as KESTREL_NEW_PASSWORD"})));
+            return;
+        }
+        // look-alikes that are different byte strings must not open it
+        let mut alikes: Vec<String> = vec![w.trim().to_string(), w.trim_end().to_string(), w.trim_start().to_string(), w.trim_end_matches(|c| c == '\n' || c == '\r').to_string(), format!("{}\n", w), format!("{} ", w), w.replace('\t', " "), w.replace("\r\n", "\n")];
+        alikes.retain(|a| a != w);
+        alikes.sort();
+        alikes.dedup();
+        for a in &alikes {
+            ctx.eval();
+            if refspec::unlock_sk(&newl, a.as_bytes()).is_ok() {
+                ctx.violation("C16:key-locked-under-other-bytes-than-the-password-given:edge-password", detail(json!({"also_opens_with_hex": hex(a.as_bytes())})));
+                return;
+            }
+        }
+        // the same bytes as the CURRENT password: extract-pub and a further change
+        let e = Cmd::new(&wd.path, &["key", "extract-pub", &newl, "--env-pass"]).pass(w).run();
+        ctx.eval();
+        let want = format!("PublicKey = {}", id.encoded_pk);
+        if !(e.exit == Exit::Code(0) && e.stdout_s().trim() == want) {
+            ctx.violation("C16:extract-pub-does-not-print-the-keys-public-key:edge-password", json!({"password_hex": hex(w.as_bytes()), "exit": e.exit.describe(), "stdout": e.stdout_s(), "stderr": e.stderr_s(), "want": want}));
+            return;
+        }
+        for a in &alikes {
+            let e = Cmd::new(&wd.path, &["key", "extract-pub", &newl, "--env-pass"]).pass(a).run();
+            ctx.eval();
+            if e.exit == Exit::Code(0) {
+                ctx.violation("C16:extract-pub-accepts-a-different-password:edge-password", json!({"locked_under_hex": hex(w.as_bytes()), "offered_hex": hex(a.as_bytes()), "stdout": e.stdout_s()}));
+                return;
+            }
+        }
+        let c = Cmd::new(&wd.path, &["key", "change-pass", &newl, "--env-pass"]).pass(w).env("KESTREL_NEW_PASSWORD", "final-pw").run();
+        ctx.eval();
+        let last = c.stdout_s().lines().find_map(|l| l.strip_prefix("PrivateKey = ").map(|x| x.trim().to_string()));
+        match (c.exit == Exit::Code(0), last) {
+            (true, Some(l)) if refspec::unlock_sk(&l, b"final-pw") == Ok(id.sk) => {
+                ctx.seen("edge password as new and as current password: byte-exact");
+                ctx.distinct(&format!("edgepw|{}", i));
+            }
+            _ => ctx.violation("C16:change-away-from-an-edge-password-failed", json!({"current_password_hex": hex(w.as_bytes()), "exit": c.exit.describe(), "stdout": c.stdout_s(), "stderr": c.stderr_s()})),
+        }
+    });
+}
+
 pub fn run(ctx: &Ctx) {
     ctx.rule(
         "histories: `key generate` (or a reference-made key) followed by 1..8 `key change-pass --env-pass` steps over the pool {empty, ASCII, UTF-8, 200 bytes, repeats}, with `key extract-pub` \
@@ -247,12 +326,14 @@ pub fn run(ctx: &Ctx) {
             }
         }
     });
+    edge_passwords(ctx);
     crate::ttylanes::c16(ctx);
     ctx.require("tty: change verified after 0 retyped", 1);
     ctx.require("tty: change verified after 1 retyped", 1);
     ctx.require("tty: change verified after 2 retyped", 1);
     ctx.require("tty: extract-pub prints the reference encoding", 6);
     ctx.require("steps verified", 20);
+    ctx.require("edge password as new and as current password", 15);
     ctx.require("non-UTF-8 new password", 5);
     ctx.require("same-password change verified", 3);
 }
